@@ -32,7 +32,7 @@ CLAUSES = {
     "C11.no_raise": "any", "C11.under_report": "any",
     "C12.work": "any", "C12.overshoot": "F", "C12.deps_adjacent": "F", "C12.load_clean": "L",
     "C12.load_deps_adjacent": "L",
-    "C18.shape": "act",
+    "C18.shape": "act", "C18.repr_roundtrip": "act",
 }
 
 
